@@ -76,6 +76,11 @@ class Model:
         else:
             d["f_tick"] = one(rest, "tick size field (the remaining OrderBook field)")
 
+    def market_books_field(self):
+        """the field of Market holding the per-asset books (an array of OrderBook); its name is private"""
+        fs = [f["name"] for f in self.prog.adt_fields(MARKET) if "OrderBook<" in f["ty"] and f["ty"].lstrip().startswith("[")]
+        return one(fs, "Market's array of order books")
+
     def _side_roles(self):
         p = self.prog
         d = self.__dict__
@@ -194,7 +199,7 @@ class Model:
 
 
 def opposite(side):
-    return {"Bid": "Ask", "Ask": "Bid"}[side]
+    return {"Bid": "Ask", "Ask": "Bid"}.get(side)
 
 
 def fld(e, *suffix):
